@@ -215,6 +215,12 @@ func (s *Sim) park(site string, spin bool) {
 		s.mu.Unlock()
 		return
 	}
+	if site == "lock.store" && holdsConnInfoLock() {
+		// SetConnectionInfo requests the store lock while holding the connection table's lock:
+		// parking here would block every other task on a sync.Mutex (not a durable block)
+		s.mu.Unlock()
+		return
+	}
 	if s.deadInst[t.Inst] {
 		// instance crashed: this goroutine must not run any more of its code
 		s.mu.Unlock()
@@ -237,6 +243,13 @@ func (s *Sim) park(site string, spin bool) {
 
 // yield sites that double as fault/crash opportunities
 var oppSites = map[string]bool{"cmd.after_handler": true, "cmd.after_log": true, "rewrite.after_preamble": true, "getState.done": true, "rewrite.lock": true}
+
+func holdsConnInfoLock() bool {
+	buf := make([]byte, 4096)
+	n := runtime.Stack(buf, false)
+	return bytes.Contains(buf[:n], []byte("getHandlerFuncParams.func")) && bytes.Contains(buf[:n], []byte("SetConnectionInfo")) ||
+		bytes.Contains(buf[:n], []byte("modules.go:1")) && bytes.Contains(buf[:n], []byte("connection.handle"))
+}
 
 func (s *Sim) hookYield(site string) { s.park(site, false) }
 func (s *Sim) hookSpin(site string)  { s.park("spin:"+site, true) }
